@@ -125,8 +125,12 @@ func implReadLine(first bool, line string) (obs string, rline string) {
 }
 
 func validatorBatch(sec string) ach.Batcher {
-	f := gen.FileOfSEC(rng.New(77), sec, gen.Opts{ForwardOnly: true, MaxBatches: 1, MinBatches: 1})
-	if f == nil || len(f.Batches) == 0 {
+	var f *ach.File
+	o := execFunc(Case{Kind: "seed"}, func() bool {
+		f = gen.FileOfSEC(rng.New(77), sec, gen.Opts{ForwardOnly: true, MaxBatches: 1, MinBatches: 1})
+		return true
+	})
+	if o.fail != nil || f == nil || len(f.Batches) == 0 {
 		return nil
 	}
 	return f.Batches[0]
